@@ -211,6 +211,11 @@ func gsub(t *rt.Thread, c *rt.GoCont) (rt.Cont, error) {
 	}
 	if err == nil && c.NArgs() >= 4 {
 		n, err = c.IntArg(3)
+		if n < 0 {
+			// A non-positive maximum means no substitution at all (a negative n
+			// must not be confused with -1, which stands for "no limit" below).
+			n = 0
+		}
 	}
 	if err != nil {
 		return nil, err
